@@ -66,6 +66,8 @@ def families(tier, seed):
         (PG, 'quad', 'axis', PG, 'tri', 'axis', 8, (1, 2, -1), (0, -1, 0)),
         # coplanar-at-one-instant: parallel planes passing through each other
         (PG, 'square', 'axis', PG, 'tri', 'axis', None, (1, 1, -2), (0, 0, 1)),
+        # polygons with different vertex counts, the second partly inside the first (both argument orders)
+        (PG, 'tri*2', 'axis', PG, 'square*1/2', 'axis', None, (F(1, 2), F(1, 2), 0), (1, 0, 0)),
         # "+" crossing of two coplanar rectangles: they overlap although no vertex of either lies in the other
         (PG, 'wide', 'axis', PG, 'tall', 'axis', None, (0, 0, 0), (1, 0, 0)),
         # polygon through polyhedron
